@@ -88,6 +88,18 @@ def check(ctx):
     for kd in kinds:
         ok = f"type_task is {kd}" in stxt and f"type_arg is {kd}" in stxt
         ctx.ob("SIB.subs-extract", subs_, f"subs descends into a {kd} (as the whole value and as an argument), like keys_in_tasks", ok, "" if ok else f"keys_in_tasks reports keys inside a {kd} as dependencies but subs leaves them: fuse/inline remove the dependency's key and the reference survives as a literal")
+    # ---------------- round 4b (C09-m8): Task.substitute treats keyword arguments like positional ones
+    from ..lib import eqv as _e4
+    tsub4 = ctx.model.klass("dask/_task_spec.py", "Task").own_methods["substitute"]
+    tests4 = {}
+    for n4 in ast.walk(tsub4):
+        if isinstance(n4, ast.IfExp) and isinstance(n4.test, ast.Call) and _e4(n4.test.func, "isinstance") and isinstance(n4.body, ast.Call) and isinstance(n4.body.func, ast.Attribute) and n4.body.func.attr == "substitute":
+            ty4 = n4.test.args[1]
+            names4 = frozenset(unparse(e) for e in (ty4.elts if isinstance(ty4, ast.Tuple) else [ty4]))
+            tests4[unparse(n4.test.args[0])] = (names4, n4)
+    ok = len(tests4) == 2 and len({v[0] for v in tests4.values()}) == 1 and all("TaskRef" in v[0] and "GraphNode" in v[0] for v in tests4.values())
+    site4 = next((v[1] for v in tests4.values() if "TaskRef" not in v[0]), tsub4)
+    ctx.ob("SIB.substitute.args-kwargs", site4, "Task.substitute rewrites GraphNode and TaskRef values alike in args and in kwargs", ok, "" if ok else f"{ {k: sorted(v[0]) for k, v in tests4.items()} }: a TaskRef passed as keyword argument keeps the old key after substitution -- the renamed graph has a dangling dependency")
 
 
 def _cull(ctx, f, style):
